@@ -80,6 +80,11 @@ def sort_rule_fn(lean_name, path, index=0):
         body = [c for c in node['inner'] if c['kind'] == 'CompoundStmt'][0]
         sw = [c for c in body['inner'] if c['kind'] == 'SwitchStmt']
         if len(sw) != 1: raise XlateError('expected exactly one switch')
+        # the rule dispatch must be unconditional: only declarations may precede the switch (an early `return` or a guard in
+        # front of it would let rules through that the switch's default rejects)
+        for c in body['inner']:
+            if c is sw[0]: break
+            if c['kind'] != 'DeclStmt': raise XlateError('statement before the rule switch: ' + c['kind'])
         cond, groups = parse_sort_switch(fn, sw[0])
         chain = ''
         for labels, rule, *_ in groups:
